@@ -459,3 +459,171 @@ func TestC14_ErrorChains(t *testing.T) {
 		rec.Case(fmt.Sprintf("err|%s|%d", kind, L), true, []string{"error-chain:" + kind}, map[string]any{"kind": kind, "chain_len": L, "failed_links": errs, "max_depth": w.maxDepth})
 	})
 }
+
+// TestC14_DeferredFromInsideAChain: an operation that cannot complete at once (write into a full socket buffer, read
+// with nothing buffered) is started from inside k nested inline completions; the stack unwinds, and the poller
+// completes it later. The depth accounting must be back to zero after the unwind and after that late completion, and a
+// chain run afterwards must get the same number of inline completions as one run before.
+func TestC14_DeferredFromInsideAChain(t *testing.T) {
+	rec := evid.For("C14")
+	vt.Check(t, 120, func(rt *rapid.T) {
+		ioc, err := sonic.NewIO()
+		if err != nil {
+			rt.Fatalf("INFRA: NewIO: %v", err)
+		}
+		defer ioc.Close()
+		ln, err := sysx.ListenTCP()
+		if err != nil {
+			rt.Fatalf("INFRA: listen: %v", err)
+		}
+		defer ln.Close()
+		mk := func() (sonic.Conn, int) {
+			c, err := sonic.Dial(ioc, "tcp", ln.Addr())
+			if err != nil {
+				rt.Fatalf("INFRA: dial: %v", err)
+			}
+			p, err := ln.Accept(2000)
+			if err != nil {
+				_ = c.Close()
+				rt.Fatalf("INFRA: accept: %v", err)
+			}
+			return c, p
+		}
+		a, ap := mk() // carries the inline chain: one-byte writes into an almost empty socket buffer
+		b, bp := mk() // the side object
+		defer func() {
+			_ = a.Close()
+			_ = b.Close()
+			sysx.Reset(ap)
+			sysx.Reset(bp)
+		}()
+		depth, maxDepth := 0, 0
+		var trace []string
+		// chain runs n one-byte writes on a, each from the callback of the previous one; at nesting depth `at` it calls side.
+		chain := func(n, at int, side func()) (inline int) {
+			issued := 0
+			stackAlive := true
+			var step func()
+			step = func() {
+				if issued >= n {
+					return
+				}
+				issued++
+				a.AsyncWrite([]byte{byte(issued)}, func(err error, _ int) {
+					depth++
+					if depth > maxDepth {
+						maxDepth = depth
+					}
+					if err != nil {
+						rt.Fatalf("chain write failed: %v; trace=%v", err, trace)
+					}
+					if stackAlive {
+						inline++
+					}
+					if depth == at && side != nil {
+						side()
+						side = nil
+					}
+					step()
+					depth--
+				})
+			}
+			step()
+			stackAlive = false
+			for i := 0; i < 20 && issued < n || ioc.Pending() > 0 && i < 20; i++ {
+				sysx.WaitWritable(a.RawFd(), 50)
+				_, _ = ioc.PollOne()
+			}
+			_ = sysx.ReadSome(ap, 1<<20)
+			return inline
+		}
+		unwound := func(when string) {
+			if ioc.Dispatched != 0 {
+				rt.Fatalf("IO.Dispatched=%d with the stack unwound (%s); trace=%v", ioc.Dispatched, when, trace)
+			}
+		}
+		ref := chain(40, -1, nil)
+		trace = append(trace, fmt.Sprintf("reference chain: %d of 40 inline", ref))
+		unwound("after the reference chain")
+		if ref < 1 {
+			rt.Fatalf("INFRA: reference chain had no inline completion")
+		}
+		episodes := rapid.IntRange(1, 3).Draw(rt, "episodes")
+		for e := 0; e < episodes; e++ {
+			kind := rapid.SampledFrom([]string{"write", "writeAll", "read", "readAll"}).Draw(rt, "sideKind")
+			at := rapid.IntRange(1, ref).Draw(rt, "depth")
+			sideCalls, sideDepth := 0, 0
+			sideCb := func(err error, n int) {
+				sideCalls++
+				depth++
+				sideDepth = depth
+				if depth > maxDepth {
+					maxDepth = depth
+				}
+				depth--
+				trace = append(trace, fmt.Sprintf("cb:side(%v,%d) at harness depth %d", err, n, sideDepth))
+			}
+			isWrite := kind == "write" || kind == "writeAll"
+			if isWrite { // fill b's send buffer so that the write cannot be taken
+				junk := make([]byte, 1<<16)
+				for i := 0; i < 4096; i++ {
+					if n, err := syscall.Write(b.RawFd(), junk); err != nil || n <= 0 {
+						break
+					}
+				}
+			}
+			side := func() {
+				buf := make([]byte, 3000)
+				switch kind {
+				case "write":
+					b.AsyncWrite(buf, sideCb)
+				case "writeAll":
+					b.AsyncWriteAll(buf, sideCb)
+				case "read":
+					b.AsyncRead(buf[:8], sideCb)
+				default:
+					b.AsyncReadAll(buf[:8], sideCb)
+				}
+				if sideCalls != 0 {
+					rt.Fatalf("INFRA: the side %s completed inline", kind)
+				}
+			}
+			n := rapid.IntRange(at, 40).Draw(rt, "len")
+			got := chain(n, at, side)
+			trace = append(trace, fmt.Sprintf("episode %d: side %s issued at depth %d of a %d-link chain (%d inline)", e, kind, at, n, got))
+			unwound("after a chain that left a deferred operation behind")
+			// now make the side operation completable
+			if isWrite {
+				for i := 0; i < 200 && sideCalls == 0; i++ {
+					_ = sysx.ReadSome(bp, 1<<20)
+					sysx.WaitWritable(b.RawFd(), 20)
+					_, _ = ioc.PollOne()
+				}
+			} else {
+				_ = sysx.WriteSome(bp, []byte("12345678"))
+				for i := 0; i < 200 && sideCalls == 0; i++ {
+					sysx.WaitReadable(b.RawFd(), 20)
+					_, _ = ioc.PollOne()
+				}
+			}
+			if sideCalls != 1 {
+				rt.Fatalf("the deferred %s completed %d times after it was made completable; trace=%v", kind, sideCalls, trace)
+			}
+			if sideDepth != 1 {
+				rt.Fatalf("the poller ran the deferred %s's callback with %d callbacks on the stack; trace=%v", kind, sideDepth, trace)
+			}
+			unwound("after the poller completed the deferred operation")
+			_ = sysx.ReadSome(bp, 1<<20)
+			again := chain(40, -1, nil)
+			trace = append(trace, fmt.Sprintf("chain afterwards: %d of 40 inline", again))
+			if again != ref {
+				rt.Fatalf("a 40-link chain gets %d inline completions now, it got %d before an operation was deferred from depth %d and completed by the poller: the depth accounting did not return to zero; trace=%v", again, ref, at, trace)
+			}
+			unwound("after the follow-up chain")
+		}
+		if maxDepth > sonic.MaxCallbackDispatch+1 {
+			rt.Fatalf("callbacks nested %d deep; trace=%v", maxDepth, trace)
+		}
+		rec.Case("deferredinside:"+strings.Join(trace, ";"), true, []string{"deferred-from-inside-a-chain"}, map[string]any{"trace": trace, "inline_per_chain": ref})
+	})
+}
